@@ -1,6 +1,7 @@
 package rules
 
 import (
+	"regexp"
 	"fmt"
 	"go/token"
 	"go/types"
@@ -25,6 +26,8 @@ func c09(c *eng.Ctx, r *eng.Report) {
 		"R9.4 values cross the codec verbatim — every call made by a codec function of middleware/types (and the same-package helpers it reaches) is a reviewed value-preserving conversion, a generated getter or a sibling codec function, and no output element aliases a loop variable that the next iteration overwrites; no floating-point value appears in a codec function (integers decoded through float64 are rounded above 2^53). " +
 		"R9.5 inside the parsers (UnMarshal*, PbTo*) a Go-side pointer that a converter may have left nil — the result of a converter with a nil return, or a struct field such a result was stored in (Block.Header) — is dereferenced only under a nil test. " +
 		"R9.6 an encoder sets every protobuf field that is `req` by its struct tag on every path (proto.Marshal fails for the whole message — and a block carrying it — when a required field is nil, and the pool ignores that error); " +
+		"R9.9 whether an encoder writes a field depends on that field alone: in the xxxToPb encoders a value that reaches a protobuf field only under a condition is conditioned on source fields it is itself computed from (`if len(t.Target) != 0 { target = &t.Target }`), never on a sibling — a SubHash written only when SubTransactions is non-empty comes back zero for a transaction that has the one without the other; " +
+		"R9.10 the content hashes take no time.Time through String()/Format(): those render the zone name and the monotonic clock reading, which the wire form (MarshalBinary) does not carry, so the same header hashes differently after transport; " +
 		"R9.8 a decoded list owns one storage cell per entry: when a codec function hands out the address of an element of a slice it made (`append(out, &cells[i])`), that slice has exactly one cell per input entry (`make([]T, len(in))`) — a smaller, recycled block of cells makes later entries overwrite earlier ones through the pointers already handed out; " +
 		"R9.7 no codec function appends to a slice it made with a non-zero length (`make([]T, len(src))` followed by append doubles the list: n zero values, then the real ones). " +
 		"Not decided: value equality after a round trip (nil-vs-empty slices, time zones)."
@@ -37,6 +40,8 @@ func c09(c *eng.Ctx, r *eng.Report) {
 	c09RequiredSet(c, r)
 	c09MakeLenAppend(c, r)
 	c09ElementStorage(c, r)
+	c09FieldOwnCondition(c, r)
+	c09HashNoTimeString(c, r)
 	c09GoNil(c, r)
 }
 
@@ -965,5 +970,137 @@ func c09ElementStorage(c *eng.Ctx, r *eng.Report) {
 	}
 	if bad == 0 {
 		r.Pass(rule, "element-storage:none", "", fmt.Sprintf("%d appends in codec functions, no address of a recycled cell handed out", n))
+	}
+}
+
+var fieldRefRe = regexp.MustCompile(`\b([A-Za-z_][A-Za-z0-9_]*)\.([A-Z][A-Za-z0-9_]*)`)
+
+func srcFieldsOf(param string, v ssa.Value) map[string]bool {
+	out := map[string]bool{}
+	for _, m := range fieldRefRe.FindAllStringSubmatch(eng.Desc(v), -1) {
+		if m[1] == param {
+			out[m[2]] = true
+		}
+	}
+	return out
+}
+
+// c09FieldOwnCondition: see R9.9.
+func c09FieldOwnCondition(c *eng.Ctx, r *eng.Report) {
+	const rule = "R9.9"
+	r.Min(rule, 3)
+	for _, cp := range codecPairs {
+		for _, name := range cp.encoders {
+			fn := c.Func(typesPkg, name)
+			if fn == nil || fn.Blocks == nil || len(fn.Params) == 0 {
+				continue
+			}
+			param := fn.Params[0].Name()
+			n, bad := 0, ""
+			reachable := func(from, to *ssa.BasicBlock) bool {
+				seen := map[*ssa.BasicBlock]bool{}
+				var walk func(b *ssa.BasicBlock) bool
+				walk = func(b *ssa.BasicBlock) bool {
+					if b == to {
+						return true
+					}
+					if seen[b] {
+						return false
+					}
+					seen[b] = true
+					for _, x := range b.Succs {
+						if walk(x) {
+							return true
+						}
+					}
+					return false
+				}
+				return walk(from)
+			}
+			var target *ssa.BasicBlock // the block of the field store under examination
+			check := func(v ssa.Value, blk *ssa.BasicBlock, pbField string) {
+				own := srcFieldsOf(param, v)
+				if len(own) == 0 {
+					return
+				}
+				for _, cd := range eng.EdgeConds(blk) {
+					// a guard whose other outcome abandons the whole record (`if err != nil { return nil }`) is not a
+					// per-field condition: the store is unreachable from that outcome
+					other := cd.If.Block().Succs[0]
+					if cd.True {
+						other = cd.If.Block().Succs[1]
+					}
+					if target != nil && !reachable(other, target) {
+						continue
+					}
+					for f := range srcFieldsOf(param, cd.V) {
+						if !own[f] {
+							bad = fmt.Sprintf("%s (from %s) is written under a condition on %s.%s", pbField, eng.Desc(v), param, f)
+						}
+					}
+				}
+			}
+			for _, b := range fn.Blocks {
+				for _, in := range b.Instrs {
+					st, ok := in.(*ssa.Store)
+					if !ok {
+						continue
+					}
+					t, f := eng.FieldOf(st.Addr)
+					if f == "" || !strings.Contains(t, "middleware_pb") && !strings.Contains(t, "pb.") {
+						continue
+					}
+					n++
+					target = b
+					check(st.Val, b, f)
+					if phi, isPhi := st.Val.(*ssa.Phi); isPhi {
+						for i, e := range phi.Edges {
+							if eng.IsNilConst(e) {
+								continue
+							}
+							pred := phi.Block().Preds[i]
+							// the edge itself: pred ends in an If whose outcome selects this edge
+							check(e, pred, f)
+							if iff, isIf := pred.Instrs[len(pred.Instrs)-1].(*ssa.If); isIf {
+								own := srcFieldsOf(param, e)
+								for fld := range srcFieldsOf(param, iff.Cond) {
+									if len(own) > 0 && !own[fld] {
+										bad = fmt.Sprintf("%s (from %s) is written under a condition on %s.%s", f, eng.Desc(e), param, fld)
+									}
+								}
+							}
+						}
+					}
+				}
+			}
+			if n == 0 {
+				continue
+			}
+			r.Check(bad == "", rule, "own-condition:"+name, c.Pos(fn.Pos()), fmt.Sprintf("%d protobuf field stores, each conditioned only on its own source field", n), name+": "+bad+", a different field of the same record: a record that has the one without the other loses it on the wire — the decoded value differs from what was encoded, its content hash changes, and a re-serialised block body no longer matches the hashes listed in its own header")
+		}
+	}
+}
+
+// c09HashNoTimeString: see R9.10.
+func c09HashNoTimeString(c *eng.Ctx, r *eng.Report) {
+	const rule = "R9.10"
+	r.Min(rule, 2)
+	n := 0
+	for _, fn := range c.PkgFuncs(typesPkg) {
+		if fn.Name() != "GenHash" && fn.Name() != "GenHashes" {
+			continue
+		}
+		n++
+		bad := ""
+		for _, s := range eng.Sites(fn) {
+			switch s.Name() {
+			case "(time.Time).String", "(time.Time).Format", "(time.Time).GoString", "(time.Time).Local", "(time.Time).Location", "(time.Time).Zone":
+				bad = s.Name() + " at " + c.Pos(s.Pos())
+			}
+		}
+		r.Check(bad == "", rule, "hash-time:"+eng.FuncName(fn), c.Pos(fn.Pos()), "no zone- or clock-dependent rendering of a time in the hashed bytes", eng.FuncName(fn)+" feeds "+bad+" into the content hash: the text includes the zone name and, for a fresh time.Now(), the monotonic clock reading, neither of which the wire form (MarshalBinary/UnmarshalBinary) carries — after MarshalGroup/UnMarshalGroup the record has the same instant and the same stored Hash but a different GenHash(), and the `Hash != GenHash()` check of the receivers rejects an honest group")
+	}
+	if n == 0 {
+		r.Fail(rule, "hash-time:none", "", "no GenHash function found in middleware/types: the rule has lost its anchor")
 	}
 }
